@@ -74,3 +74,73 @@ Definition classified : list (string * site_class) :=
     ("vm newVM globals #0", CopyByKey);
     ("vm newVM opts[0].Globals #0", CopyByKey)
   ].
+
+(* The classification above was made by READING each function.  `reviewed_texts` records, per site, a digest of the text
+   (signature and body, comments excluded, as printed by go/printer) of the enclosing function AS IT WAS REVIEWED; the
+   generator recomputes the digests from the current source on every run (gen_map_range_bodies) and the obligation
+   C05_site_texts_reviewed says they are the same.  A function with a map range whose text changed - a comparison against a
+   stale variable inside the loop, a sort dropped after it - has to be read again, and its row renewed
+   (`c05gen <harness_xt dir> reviewed` prints this table for the current source). *)
+Definition reviewed_texts : list (string * string) :=
+  [
+    (". (*Config).CombinedGlobals cfg.globals #0", "ec92608c525b");
+    (". (*Config).GlobalNames cfg.globals #0", "8d9dfc69927f");
+    (". (*Config).Globals cfg.globals #0", "ec92608c525b");
+    (". (*Config).VMOpts globals #0", "0f6d058a1ea6");
+    (". (*Config).applyDefaultGlobals DefaultGlobals(DefaultGlobalsOpts{ListenersAllowed: cfg.listenersAllowed}) #0", "bb2d5f3f38d9");
+    (". (*Config).applyDenylist cfg.denylist #0", "c625de74685d");
+    (". (*Config).applyOverrides cfg.overrides #0", "9334a3afa827");
+    (". DefaultGlobals builtins #0", "f61d9d1391e1");
+    (". DefaultGlobals modules #0", "f61d9d1391e1");
+    (". WithGlobals globals #0", "1d9738d579b5");
+    ("ast (*Map).OrderedKeys m.items #0", "9e76fe6ec58b");
+    ("builtins All arg.Value() #0", "13543d89aae3");
+    ("builtins Any arg.Value() #0", "cce7b8b3eb85");
+    ("compiler definitionFromSymbolTable table.symbolsByName #0", "78702f6edbaa");
+    ("compiler symbolTableFromDefinition def.SymbolsByName #0", "c08ae8bc12cf");
+    ("modules/exec configureCommand envMap.Value() #0", "f3f3d0ae6330");
+    ("modules/exec configureCommand params.Value() #0", "f3f3d0ae6330");
+    ("modules/http (*HttpRequest).AddHeaders headers.Value() #0", "ac92023f9d12");
+    ("modules/http (*HttpRequest).GetAttr r.req.URL.Query() #0", "24638274e4ac");
+    ("modules/http (*HttpRequest).Header hdr #0", "9511fb2fbf99");
+    ("modules/http (*HttpResponse).Header hdr #0", "06b4c6490134");
+    ("object (*GoType).attrMap t.attributes #0", "ac44355d1fec");
+    ("object (*Map).Copy m.items #0", "3bed575e57fb");
+    ("object (*Map).Equals m.items #0", "b892099798ad");
+    ("object (*Map).Interface m.items #0", "714efe6de180");
+    ("object (*Map).SortedKeys m.items #0", "4228095cc526");
+    ("object (*Map).StringKeys m.items #0", "95283a4fb205");
+    ("object (*Map).Update other.items #0", "67fc3053beda");
+    ("object (*MapConverter).To tMap.items #0", "a1a597ff942e");
+    ("object (*Set).Difference s.items #0", "0bc99dbbd0d7");
+    ("object (*Set).Equals s.items #0", "bc98b9e06029");
+    ("object (*Set).Intersection s.items #0", "e25d72bba40f");
+    ("object (*Set).SortedItems s.items #0", "4e42a56549e3");
+    ("object (*Set).Union other.items #0", "6aa13408d651");
+    ("object (*Set).Union s.items #0", "6aa13408d651");
+    ("object (*StructConverter).To obj.items #0", "367a6099418e");
+    ("object AsObjects m #0", "5bdac85413ce");
+    ("object FromGoType obj #0", "60101bf595c2");
+    ("object Keys m #0", "093e938b9a26");
+    ("object NewBuiltinsModule builtins #0", "d1e5f61d117f");
+    ("object NewBuiltinsModule contents #0", "d1e5f61d117f");
+    ("object newGoType directMethods #0", "d7bd8fab11a6");
+    ("object newGoType goType.attributes #0", "d7bd8fab11a6");
+    ("object newGoType indirectMethods #0", "d7bd8fab11a6");
+    ("os (*MockFS).ReadDir fs.fileInfos #0", "faeecaf9a142");
+    ("os (*VirtualOS).Environ osObj.env #0", "588bd471072a");
+    ("os (*VirtualOS).findMount osObj.mounts #0", "ac045578e2a0");
+    ("os WithEnvironment env #0", "808d3458f8c4");
+    ("os WithMounts mounts #0", "546f4cbed0e8");
+    ("vm (*VirtualMachine).Clone vm.loadedCode #0", "d0f6ac5184f7");
+    ("vm (*VirtualMachine).Clone vm.modules #0", "d0f6ac5184f7");
+    ("vm (*VirtualMachine).applyOptions vm.globals #0", "8461ce655953");
+    ("vm (*VirtualMachine).reloadCode vm.loadedCode #0", "0309388ae1bc");
+    ("vm (*VirtualMachine).resetForNewCode vm.globals #0", "fc70f8eedcda");
+    ("vm WithGlobals globals #0", "dacd234ea6c1");
+    ("vm basicBuiltins builtins.Builtins() #0", "c4695aa630d0");
+    ("vm basicBuiltins modFmt.Builtins() #0", "c4695aa630d0");
+    ("vm newVM globals #0", "1fd7cff83f7d");
+    ("vm newVM opts[0].Globals #0", "1fd7cff83f7d")
+  ].
+
